@@ -113,6 +113,23 @@ class C01(Check):
             wants = ([0] if opts else []) + T.numbering(n // bs + 1, 0)
             ev = [(i + 1, 0, T.ack(w)) for i, w in enumerate(wants)]
             yield T.mk_case(content, ch, options=opts, kind=("bufshort",), events=ev)
+        # streams of every kind that the handler has already partly consumed (a signature line read and checked,
+        # a header skipped): what is supplied is what read() returns from the current position on, whatever the
+        # options (tsize makes the server look at the stream before the first read)
+        for _ in range(60 if quick else 600):
+            bs = rng.choice([8, 16, 512])
+            n = rng.randrange(0, 4 * bs)
+            content = bytes(rng.randrange(256) for _ in range(n))
+            p = rng.choice([0, 1, 3, bs, bs + 5])
+            kind = rng.choice([("bytesio", p), ("file", p), ("seekpos", p), ("seekpos", p), ("sized",), ("pipe",)])
+            opts = ([("blksize", str(bs))] if bs != 512 else []) + ([("tsize", "0")] if rng.random() < 0.7 else [])
+            rng.shuffle(opts)
+            size_known = kind[0] in ("bytesio", "file")
+            oack = any(nm == "blksize" for nm, _ in opts) or (size_known and any(nm == "tsize" for nm, _ in opts))
+            wants = ([0] if oack else []) + T.numbering(n // bs + 1, 0)
+            ev = [(i + 1, 0, T.ack(w)) for i, w in enumerate(wants)]
+            ch = [] if kind[0] in ("bytesio", "file", "pipe") else [rng.randrange(1, bs + 2) for _ in range(rng.randrange(0, 6))]
+            yield T.mk_case(content, ch, options=opts, kind=kind, events=ev)
 
     extra_bins = ("c01send", "c01cfg", "c01pkt")
 
